@@ -34,6 +34,12 @@ CHECKS.update({
          "Scheduling points at channel/WaitGroup/spawn operations only (a free-running -race pass is the complement); bounds as reported in evidence.bounds.", "§5 C09"),
 })
 
+CHECKS.update({
+ "C10": ("bounded exhaustive enumeration of site layouts x every rotation / opening offset x letter case against a modular-index cut-geometry model",
+         "Rings of 0..3 (4 thorough) recognition sites in every orientation pattern and gap pattern are laid out from site-free filler (verified by scanning); each ring is digested by the real CutWithEnzyme/CutWithEnzymeByName at EVERY rotation as a circular part in upper, lower and mixed case, and at every opening offset as a linear part, for built-in and custom enzymes; the fragment multiset must equal the one computed by an independent modular-index model, which also makes it rotation independent.",
+         "Layout restrictions of the quantifier; plasmids up to ~300 bases; palindromic enzymes not generated.", "§5 C10"),
+})
+
 NOT_YET = {}
 
 props = [json.loads(l) for l in open('/verif/properties.jsonl')]
